@@ -100,18 +100,31 @@ pub fn serve(root: &Path) -> Result<(), Box<dyn std::error::Error>> {
 }
 
 fn handle_get<W: Write>(root: &Path, path: &str, w: &mut W) -> std::io::Result<()> {
+    use std::io::{Seek, SeekFrom};
     let Some(dst) = safe_join(root, path) else {
         return write_frame(w, &Response::Error("bad path".into()));
     };
-    match (std::fs::metadata(&dst), current_hash(&dst)) {
-        (Ok(m), Some(hash)) => {
-            write_frame(w, &Response::Content { len: m.len(), hash })?;
-            let mut f = std::fs::File::open(&dst)?;
-            std::io::copy(&mut f, w)?;
-            w.flush()
-        }
-        _ => write_frame(w, &Response::Error("not found".into())),
-    }
+    // Length, hash and content all come from ONE open descriptor. Commits replace the
+    // path by rename(2), so the descriptor keeps reading the single version it opened
+    // even if another server commits or deletes the path meanwhile.
+    let not_found = |w: &mut W| write_frame(w, &Response::Error("not found".into()));
+    let Ok(mut f) = std::fs::File::open(&dst) else {
+        return not_found(w);
+    };
+    let mut hasher = blake3::Hasher::new();
+    let Ok(len) = std::io::copy(&mut f, &mut hasher) else {
+        return not_found(w);
+    };
+    f.seek(SeekFrom::Start(0))?;
+    write_frame(
+        w,
+        &Response::Content {
+            len,
+            hash: *hasher.finalize().as_bytes(),
+        },
+    )?;
+    std::io::copy(&mut f.take(len), w)?;
+    w.flush()
 }
 
 #[allow(clippy::too_many_arguments)]
